@@ -31,6 +31,14 @@ func (w c02World) root() string {
 // pickMPDWorld draws a bundled MPD or (35 %) a generated asset: (vodroot label, gen, asset, mpd, model).
 func pickMPDWorld(rng *core.Rng) (string, *GenWorld, string, string, *refmodel.Asset) {
 	for {
+		if rng.Chance(0.06) { // bundled asset re-declared with endNumber below the number of files
+			g := &GenWorld{Derived: &DerivedSpec{Kind: "endnumber", EndNumber: rng.Range(2, 3)}}
+			a := refAssets(genRoot(*g))[derivedAsset]
+			if a == nil || a.Bad != "" {
+				panic("harness: derived asset not usable")
+			}
+			return "derived", g, derivedAsset, "Manifest.mpd", a
+		}
 		if rng.Chance(0.35) {
 			g := pickGenWorld(rng)
 			a := refAssets(genRoot(*g))[g.Spec.Name]
